@@ -150,6 +150,15 @@ def measure(tree, ref: Ref, radii, steps, nodes, want_volume, soma_ok):
            "counts": [float(fe.get(k)[0]) for k in ("node_count", "tip_count", "furcation_count")]
            + [lm.n_bifs(tree), lm.n_branch(tree), lm.n_tips(tree)],
            "node_branch_order": np.sort(fe.get("node_branch_order")).astype(np.float64)}
+    if not soma_ok:
+        # the library refuses radial distances when the root is not typed as soma; whatever it does
+        # -- refuse, or answer -- it must do for the moved neuron as well, with the same numbers
+        try:
+            out["node_radial_distance"] = np.asarray(fe.get("node_radial_distance"),
+                                                     dtype=np.float64)
+            out["tip_radial_distance"] = np.sort(fe.get("tip_radial_distance")).astype(np.float64)
+        except ValueError:
+            out["radial_refused"] = True
     if soma_ok:
         out["node_radial_distance"] = np.asarray(fe.get("node_radial_distance"), dtype=np.float64)
         out["tip_radial_distance"] = np.sort(fe.get("tip_radial_distance")).astype(np.float64)
@@ -236,6 +245,12 @@ def compare(ctx, case, A, B, refA: Ref, refB: Ref, new_of_old, s, radii_margin):
                            f"the {nm} tree's length was {M['length']!r} when first asked and "
                            f"{M['length_again'][0]!r} after the other morphometrics had been "
                            f"computed on the same object")
+    if A.get("radial_refused") != B.get("radial_refused"):
+        raise Mismatch("radial-distance-availability",
+                       "radial distances are refused for one pose of a root that is not typed as "
+                       "soma and answered for the other")
+    if A.get("radial_refused"):
+        ctx.count("radial_distances_refused_in_both_poses")
     close("Tree.length", A["length"], B["length"], n)
     close("length (front end)", A["length_fe"], B["length_fe"], n)
     ctx.count("length_compared")
